@@ -16,6 +16,8 @@ import (
 	"fmt"
 	"runtime"
 	"sync"
+	"sync/atomic"
+	"unsafe"
 )
 
 // Choose is the harness' choice function: a value in [0,n).
@@ -46,6 +48,7 @@ type task struct {
 	site      int
 	fn        func()
 	panicVal  any
+	cw        []cwatch // Go memory handed to C by this task and not yet re-examined
 }
 
 // Sim is one simulated execution of a set of tasks.
@@ -69,6 +72,9 @@ type Sim struct {
 	SwitchInCrit int
 	lockDepth    int
 	Switches     int
+	CArgs        int // Go objects handed to C by tasks
+	CWrites      int // of which modified by C
+	cobjs        []cobj
 	seq          int64
 }
 
@@ -100,6 +106,11 @@ func Y(line int) {
 	}
 	t.site = line
 	s.Steps++
+	if len(t.cw) > 0 && line < 1000000 {
+		// back in Go code after a cgo call: see what C did to the Go memory it was given
+		// (not at yields INSIDE the C function: it may not have written yet)
+		flushC(t)
+	}
 	if s.budget != 0 {
 		if s.budget > 0 {
 			s.budget--
@@ -332,8 +343,34 @@ type RWMutex struct {
 // Mutex is the simulated mutual exclusion lock.
 type Mutex struct{ rw RWMutex }
 
-func (m *Mutex) Lock()   { m.rw.Lock() }
-func (m *Mutex) Unlock() { m.rw.Unlock() }
+func (m *Mutex) Lock()         { m.rw.Lock() }
+func (m *Mutex) Unlock()       { m.rw.Unlock() }
+func (m *Mutex) TryLock() bool { return m.rw.TryLock() }
+
+// Once is sync.Once over the simulated mutex: a task descheduled inside f keeps the
+// (simulated) lock, and a second caller blocks in the scheduler's model instead of on a
+// real mutex the scheduler knows nothing about. The fast path is the same atomic load as
+// in sync.Once, so the race detector sees the same happens-before edges.
+type Once struct {
+	done atomic.Uint32
+	m    Mutex
+}
+
+// Do mirrors sync.Once.Do.
+func (o *Once) Do(f func()) {
+	if o.done.Load() == 0 {
+		o.doSlow(f)
+	}
+}
+
+func (o *Once) doSlow(f func()) {
+	o.m.Lock()
+	defer o.m.Unlock()
+	if o.done.Load() == 0 {
+		defer o.done.Store(1)
+		f()
+	}
+}
 
 //go:norace
 func (m *RWMutex) canGrant(write bool, t *task) bool {
@@ -399,6 +436,7 @@ func (m *RWMutex) Lock() {
 
 //go:norace
 func (m *RWMutex) Unlock() {
+	CFlush() // writes made by C inside the critical section are reported inside it
 	m.mu.Unlock()
 	if S != nil && S.cur != nil {
 		m.release(true)
@@ -415,10 +453,42 @@ func (m *RWMutex) RLock() {
 
 //go:norace
 func (m *RWMutex) RUnlock() {
+	CFlush()
 	m.mu.RUnlock()
 	if S != nil && S.cur != nil {
 		m.release(false)
 	}
+}
+
+// TryLock mirrors sync.RWMutex.TryLock: never blocks, fails when the lock is held in any mode.
+//
+//go:norace
+func (m *RWMutex) TryLock() bool {
+	if S != nil && S.cur != nil {
+		if !m.canGrant(true, S.cur) {
+			return false
+		}
+		m.waitingW++ // grant() decrements
+		m.grant(true, S.cur)
+		m.mu.Lock() // free by construction
+		return true
+	}
+	return m.mu.TryLock()
+}
+
+// TryRLock mirrors sync.RWMutex.TryRLock: fails when a writer holds the lock or is waiting for it.
+//
+//go:norace
+func (m *RWMutex) TryRLock() bool {
+	if S != nil && S.cur != nil {
+		if !m.canGrant(false, S.cur) {
+			return false
+		}
+		m.grant(false, S.cur)
+		m.mu.RLock() // free by construction
+		return true
+	}
+	return m.mu.TryRLock()
 }
 
 // RLocker mirrors sync.RWMutex.
@@ -448,4 +518,115 @@ func Stamp() int64 {
 	}
 	s.seq++
 	return s.seq
+}
+
+// ---- accesses of C code to Go memory -----------------------------------------------------
+//
+// The Go race detector does not see loads and stores made by C. The instrumenter therefore
+// wraps every pointer that the library hands to a cgo call ((*C.T)(expr)) in CPtr / CSliceP:
+// at the call the pointed-to object (for &x[0]: the whole slice x) is reported to the
+// detector as READ by the calling task and its bytes are remembered; at the task's next Go
+// yield point, lock release or explicit CFlush (inserted right after the statement that
+// contains the call) the bytes are compared, and an object that C has modified is reported
+// as WRITTEN. A C routine that modifies an object shared with another task, or reads one that
+// another task's C call modifies, thus becomes an ordinary data-race report of the run.
+// The wrappers store the pointer in a heap structure, so escape analysis keeps the pointee
+// off the goroutine stack and the remembered address stays valid.
+
+type cwatch struct {
+	p    unsafe.Pointer
+	n    int
+	snap []byte
+	site int // Go source line of the cgo call
+}
+
+// cobj remembers which task handed which Go object to C (per simulation, bounded), so that
+// a modification by C of an object that another task also gave to C can be named in the log:
+// the stacks of a race report that comes from these explicit annotations show the task's
+// last instrumented Go frames, not the cgo call.
+type cobj struct {
+	p    unsafe.Pointer
+	n    int
+	task int
+	site int
+}
+
+// CPtr registers the object p points to and returns p.
+func CPtr[T any](p *T) *T {
+	if p != nil {
+		cArg(unsafe.Pointer(p), int(unsafe.Sizeof(*p)))
+	}
+	return p
+}
+
+// CSliceP registers the whole slice s (C gets a pointer to its first element plus a length)
+// and returns p unchanged.
+func CSliceP[E any](s []E, p *E) *E {
+	if len(s) > 0 {
+		cArg(unsafe.Pointer(&s[0]), len(s)*int(unsafe.Sizeof(s[0])))
+	}
+	return p
+}
+
+//go:norace
+func cArg(p unsafe.Pointer, n int) {
+	s := S
+	if s == nil || n <= 0 {
+		return
+	}
+	t := s.cur
+	if t == nil {
+		return
+	}
+	runtime.RaceReadRange(p, n)
+	snap := make([]byte, n)
+	copy(snap, unsafe.Slice((*byte)(p), n))
+	t.cw = append(t.cw, cwatch{p: p, n: n, snap: snap, site: t.site})
+	if len(s.cobjs) < 8192 {
+		s.cobjs = append(s.cobjs, cobj{p: p, n: n, task: t.id, site: t.site})
+	}
+	s.CArgs++
+}
+
+// CFlush re-examines the memory handed to C by the current task.
+//
+//go:norace
+func CFlush() {
+	s := S
+	if s == nil {
+		return
+	}
+	if t := s.cur; t != nil && len(t.cw) > 0 {
+		flushC(t)
+	}
+}
+
+//go:norace
+func flushC(t *task) {
+	for _, w := range t.cw {
+		cur := unsafe.Slice((*byte)(w.p), w.n)
+		same := true
+		for i := range cur {
+			if cur[i] != w.snap[i] {
+				same = false
+				break
+			}
+		}
+		if !same {
+			if s := S; s != nil {
+				s.CWrites++
+				lo, hi := uintptr(w.p), uintptr(w.p)+uintptr(w.n)
+				for _, o := range s.cobjs {
+					if o.task != t.id && uintptr(o.p) < hi && lo < uintptr(o.p)+uintptr(o.n) {
+						// (println: no fmt / sync.Pool in norace code)
+						println("SIMRT-C-WRITE: the C call at Go line", w.site, "of task", t.id, "modified a Go object of", w.n,
+							"bytes that task", o.task, "also handed to C at Go line", o.site)
+						break
+					}
+				}
+			}
+			runtime.RaceWriteRange(w.p, w.n)
+		}
+	}
+	t.cw = t.cw[:0]
 }
